@@ -19,6 +19,10 @@ hist  {"t":"hist", species, vertices, edges, flow (as for flow cases), "ops":[op
       property, ["B"] build_petri_net_from_flow, ["L", [[eid, f],...]] load_hypergraph_and_flow with a new flow,
       ["W", max_borrow_each] is_borrow_realizable.
       observable: per call the answer and the object's fields right after it (flow, built net places, M0, MT, certificate).
+ana   {"t":"ana", "stages":[[rxn,...],[rxn,...],...], "k": max_siphon_size|None, "ops":["C"|"R"|"E",...]} — ONE PetriAnalyzer on ONE
+      CRNHyperGraph that is edited between calls: C compute_siphons_traps(), R read the siphons / traps properties, E add the
+      reactions of the next stage to the analysed hypergraph.  observable: per call the answer (sets as species ranks of the network
+      at the last successful compute).
 """
 import itertools
 
@@ -35,7 +39,8 @@ RULE = ("net cases: a network with its species subsets; petri cases: a net with 
         "(network, integer flow, max_states, max_depth).  Non-trivial: net = at least one subset satisfies and one violates a "
         "predicate; petri = at least one query enabled and one disabled; flow = realizable with a certificate of length >= 2, or "
         "not realizable although at least 3 markings are reachable; hist (a call history on one object) = a scaled search that went "
-        "beyond k = 1 or failed, followed by a later is_realizable / certificate call, or two searches with different answers.  "
+        "beyond k = 1 or failed, followed by a later is_realizable / certificate call, or two searches with different answers; "
+        "ana (PetriAnalyzer history) = two reads with different non-empty results.  "
         "distinct = distinct canonical case JSON")
 EXHAUSTIVE = {"quick": True, "thorough": True}
 EXPLANATION = ("Exhaustive sub-space: every network of <=2 (quick) / <=3 (thorough) distinct reactions between unit-coefficient "
@@ -43,7 +48,8 @@ EXPLANATION = ("Exhaustive sub-space: every network of <=2 (quick) / <=3 (thorou
                "predicates and the minimal siphons/traps compared.  Everything else (random networks <= 6 species, Petri firing "
                "queries, flows derived from valid firing sequences and their perturbations with <= 10^4 reachable markings, bounds "
                "at and around the exact reachable-set size and pathway length, call histories of 2-8 calls on one object over catalyst pathways "
-               "that need a scaling factor 2-4, autocatalytic pathways that need a borrowed token, gcd-reduced and ordinary walk flows) is seeded random.")
+               "that need a scaling factor 2-4, autocatalytic pathways that need a borrowed token, gcd-reduced and ordinary walk flows, "
+               "compute / read / edit histories of one PetriAnalyzer on one hypergraph) is seeded random.")
 TRUSTED_BASE = [
     "Coq 8.16.1 kernel + vm_compute (no native_compute)",
     "hand-written model coq/model/C20_Model.v tied to synkit/CRN/Petri/{structure,net}.py and synkit/CRN/Path/realizability.py by the per-run correspondence",
@@ -56,7 +62,7 @@ ASSUMPTIONS = ["species labels do not start with '__ext__' / '__target__' (place
                "max_states, max_depth are non-negative integers"]
 TESTED_NOT_PROVED = ["siphon_persistence_condition (floating-point semiflows; only its siphon input is covered)",
                      "find_siphons/find_traps on caller-supplied networkx graphs (modes bip/und) — compared per run, theorem is about CRNHyperGraph input",
-                     "PetriAnalyzer reused after the analysed hypergraph was edited (compute, add reactions, compute): Python oracle only"]
+                     ]
 
 DEFAULT_MAX_STATES = 100000
 DEFAULT_MAX_DEPTH = 10000
@@ -281,8 +287,61 @@ def _impl_hist(case):
     return out
 
 
+def _ana_species(rxns):
+    return sorted({s for l, r in rxns for s, c in l + r if c > 0})
+
+
+def _ana_replay(case):
+    """runs the analyzer history; yields per call (op, answer kind, analyzer, cumulative reactions, species ranks of the last compute)"""
+    from synkit.CRN.Hypergraph.hypergraph import CRNHyperGraph
+    from synkit.CRN.Petri.analyzer import PetriAnalyzer
+    H = CRNHyperGraph()
+    cum = []
+
+    def add(stage):
+        for l, r in stage:
+            H.add_rxn({s: c for s, c in l}, {s: c for s, c in r})
+            cum.append([l, r])
+    add(case["stages"][0])
+    an = PetriAnalyzer(H, max_siphon_size=case.get("k"))
+    nxt = 1
+    computed = None                      # reactions of the network at the last successful compute
+    for op in case["ops"]:
+        if op == "C":
+            try:
+                an.compute_siphons_traps()
+                computed = [list(x) for x in cum]
+                yield op, "done", an, list(cum), computed
+            except ValueError:
+                yield op, "err", an, list(cum), computed
+        elif op == "R":
+            yield op, "read", an, list(cum), computed
+        elif op == "E":
+            add(case["stages"][nxt])
+            nxt += 1
+            yield op, "done", an, list(cum), computed
+
+
+def _impl_ana(case):
+    out = []
+    for op, kind, an, cum, computed in _ana_replay(case):
+        if kind == "done":
+            out.append([4])
+        elif kind == "err":
+            out.append([9])
+        else:
+            rank = {s: i for i, s in enumerate(_ana_species(computed or []))}
+
+            def conv(sets):
+                return [] if sets is None else [[S(sorted(rank[x] for x in st)) for st in sets]]
+            out.append([1, conv(an.siphons), conv(an.traps)])
+    return out
+
+
 def impl(case):
     t = case["t"]
+    if t == "ana":
+        return _impl_ana(case)
     if t == "hist":
         return _impl_hist(case)
     if t == "net":
@@ -341,6 +400,27 @@ def coq_case(case):
                                            clist([cZ(fl.get(eid, 0)) for eid, _, _ in case["edges"]]),
                                            cN(DEFAULT_MAX_STATES if ms is None else ms),
                                            cN(DEFAULT_MAX_DEPTH if md is None else md))
+    if t == "ana":
+        def cnetw(rxns):
+            sp = _ana_species(rxns)
+            rank = {s: i for i, s in enumerate(sp)}
+            return cpair(cnat(len(sp)), clist([cpair(_cside([x for x in l if x[1] > 0], rank), _cside([x for x in r if x[1] > 0], rank))
+                                               for l, r in rxns]))
+        cum = [list(x) for x in case["stages"][0]]
+        net0 = cnetw(cum)
+        nxt = 1
+        ops = []
+        for op in case["ops"]:
+            if op == "C":
+                ops.append("AnCompute")
+            elif op == "R":
+                ops.append("AnRead")
+            else:
+                cum += [list(x) for x in case["stages"][nxt]]
+                nxt += 1
+                ops.append("AnEdit %s" % cnetw(cum))
+        k = case.get("k")
+        return "run_ana %s %s %s" % ("None" if k is None else "(Some %s)" % cnat(k), net0, clist(ops))
     if t == "hist":
         sp = sorted(set(case["species"]))
         rank = {s: i for i, s in enumerate(sp)}
@@ -698,8 +778,52 @@ def _oracle_hist(case):
     return fails[:3]
 
 
+def _oracle_ana(case):
+    """After every successful compute the stored siphons / traps are, by definition, the inclusion-minimal ones (within
+    max_siphon_size) of the network AS IT IS AT THAT MOMENT; a read returns the results of the last successful compute."""
+    fails = []
+    k = case.get("k")
+
+    def want(rxns):
+        sp = _ana_species(rxns)
+        rx = [({s for s, c in l if c > 0}, {s for s, c in r if c > 0}) for l, r in rxns]
+
+        def is_siphon(X):
+            return bool(X) and all((not (p & X)) or bool(r & X) for r, p in rx)
+
+        def is_trap(X):
+            return bool(X) and all((not (r & X)) or bool(p & X) for r, p in rx)
+        res = []
+        for pred in (is_siphon, is_trap):
+            sets = [frozenset(c) for q in range(1, len(sp) + 1) for c in itertools.combinations(sp, q) if pred(set(c))]
+            mins = {x for x in sets if not any(y < x for y in sets)}
+            res.append({x for x in mins if k is None or len(x) <= k})
+        return res
+    for i, (op, kind, an, cum, computed) in enumerate(_ana_replay(case)):
+        if kind == "err":
+            if cum and _ana_species(cum):
+                fails.append(dict(clause="analyzer-history", detail="call %d: compute raised on a network with reactions %r" % (i, cum)))
+            continue
+        if op not in ("C", "R") or computed is None:
+            if op == "R" and computed is None and (an.siphons is not None or an.traps is not None):
+                fails.append(dict(clause="analyzer-history", detail="call %d: results %r / %r before any compute" % (i, an.siphons, an.traps)))
+            continue
+        ws, wt = want(computed)
+        gs = None if an.siphons is None else {frozenset(x) for x in an.siphons}
+        gt = None if an.traps is None else {frozenset(x) for x in an.traps}
+        if gs != ws or gt != wt:
+            fails.append(dict(clause="analyzer-history",
+                              detail="call %d (%s) of %r: analyzer holds siphons %r traps %r; the network at the last compute (%d reactions) has "
+                                     "siphons %r traps %r" % (i, op, case["ops"], sorted(map(sorted, gs or [])), sorted(map(sorted, gt or [])),
+                                                              len(computed), sorted(map(sorted, ws)), sorted(map(sorted, wt)))))
+            break
+    return fails[:2]
+
+
 def oracle(case):
     t = case["t"]
+    if t == "ana":
+        return _oracle_ana(case)
     if t == "hist":
         return _oracle_hist(case)
     if t == "net":
@@ -713,6 +837,9 @@ def oracle(case):
 
 def nontrivial(case, obs):
     t = case["t"]
+    if t == "ana":
+        reads = [repr(a) for a in obs if a[0] == 1 and (a[1] or a[2])]
+        return len(set(reads)) >= 2          # the reported sets changed after an edit + compute
     if t == "hist":
         # a scaled search that had to go beyond k = 1 (or failed) followed by a later is_realizable / certificate call,
         # or at least two answered searches with different answers
@@ -745,6 +872,15 @@ def distribution(cases, obss):
         t = c["t"]
         d["types"][t] = d["types"].get(t, 0) + 1
         if not isinstance(o, list) or (o and o[0] == "EXC"):
+            continue
+        if t == "ana":
+            h = d.setdefault("ana", dict(cases=0, computes=0, compute_errors=0, edits=0, reads=0, results_changed=0))
+            h["cases"] += 1
+            h["computes"] += sum(1 for op in c["ops"] if op == "C")
+            h["edits"] += sum(1 for op in c["ops"] if op == "E")
+            h["reads"] += sum(1 for op in c["ops"] if op == "R")
+            h["compute_errors"] += sum(1 for a in o if a[0] == 9)
+            h["results_changed"] += len({repr(a) for a in o if a[0] == 1 and (a[1] or a[2])}) >= 2
             continue
         if t == "hist":
             h = d.setdefault("hist", dict(kinds={}, ops={}, length={}, scaled_k={}, real_true=0, real_false=0, errors=0,
@@ -1326,8 +1462,32 @@ def gen_histories(n, rng):
     return cases
 
 
+ANA_PATTERNS = [["R", "C", "R", "E", "R", "C", "R"], ["C", "E", "C", "R"], ["C", "R", "E", "E", "R", "C", "R"], ["C", "E", "R", "C", "R", "C", "R"],
+                ["C", "R", "E", "C", "R", "E", "C", "R"]]
+
+
+def gen_analyzer_histories(n, rng):
+    cases = []
+    for base in gen_random_nets(3 * n, rng):
+        rx = [r for r in base["rxns"]]
+        if len(rx) < 2 or len(cases) >= n:
+            continue
+        pat = list(rng.choice(ANA_PATTERNS))
+        ne = pat.count("E")
+        if len(rx) < ne + 1:
+            continue
+        cuts = sorted(rng.sample(range(1, len(rx)), ne))
+        stages = [rx[a:b] for a, b in zip([0] + cuts, cuts + [len(rx)])]
+        if rng.random() < 0.12:                       # nothing to analyse at first: compute raises, nothing may be stored
+            stages = [[]] + stages
+            pat = ["C", "R", "E"] + pat
+        cases.append(dict(t="ana", kind="ana", stages=stages, k=rng.choice([None, None, 1, 2, 3]), ops=pat))
+    return cases
+
+
 def gen_cases(tier, rng):
     cases = []
+    cases += gen_analyzer_histories(60 if tier == "quick" else 600, rng)
     cases += gen_histories(150 if tier == "quick" else 1500, rng)
     cases += gen_exhaustive(tier, rng)
     for rx in TEXTBOOK_NETS:
@@ -1345,7 +1505,7 @@ def gen_cases(tier, rng):
     return cases
 
 
-LEVEL_TEXT = ("Machine-checked proof (Coq, 11 theorems, all closed under the global context) over an executable, structure-following model of "
+LEVEL_TEXT = ("Machine-checked proof (Coq, 14 theorems, all closed under the global context) over an executable, structure-following model of "
               "structure.py / net.py / realizability.py: (1) the siphon and trap index predicates equal the Petri-net definitions for every network "
               "and every species subset; (2) _minimal_sets returns exactly the inclusion-minimal candidates for every candidate list; (3) find_siphons / "
               "find_traps report exactly the minimal non-empty siphons / traps (for every max_size); (4) enabled <=> marking covers the reactants, "
@@ -1354,7 +1514,8 @@ LEVEL_TEXT = ("Machine-checked proof (Coq, 11 theorems, all closed under the glo
               "is never exhausted; (7) call histories on one PathwayRealizability object (is_realizable / is_scaled_realizable / certificate / build / "
               "reload in any order): after every history the object holds the flow loaded last, its net and markings are those built from that "
               "flow, a stored certificate of a plain search is a correct firing sequence of that flow, and every answer equals the answer of a fresh object "
-              "(history independence); (8) completeness within the bounds, proved with the bounds and the existence premise stated on the extended Petri "
+              "(history independence); a PetriAnalyzer kept while its network is edited always holds exactly the siphons / traps of the network "
+              "as it was at the last successful compute (never an earlier result); (8) completeness within the bounds, proved with the bounds and the existence premise stated on the extended Petri "
               "net the code builds (_partial; the missing converse simulation is named in props/C20.v).  The model is tied to the Python code by "
               "comparing, on every run, predicate values per subset, minimal sets, the built net, verdict, certificate and the number of "
               "enabled()/fire() calls of the search.")
